@@ -42,6 +42,17 @@ Harness-only dimensions the Lean model is independent of (all optional keys; abs
                            plain symbolic string as a NEW equal object, "excinit" calls BaseException.__init__(self, "post.msg")
                            on exception instances, "both"; the exception `args` observed afterwards name an element
                            `not-stored:<v>` when it is not the very object the field holds
+  hspec["fault_exc"]       which exception class the faulty callback raises (FAULT_EXCS): an Exception subclass, StopIteration and
+                           a subclass, StopAsyncIteration, GeneratorExit, a BaseException subclass, subclasses of
+                           AttributeError / TypeError / KeyError; "propagates unchanged" = the very object raised comes out
+  classes[0]["cb_twin"]    instead of the decoy chain a look-alike TWIN is defined first: same module, qualnames, source and the
+                           VERY SAME callback objects (memoised per role), differing only in what the Attribute carries
+                           (metadata, plain default objects); during construction every Attribute a callback is handed is
+                           checked to be the class's own (`foreign-attr.<name>` otherwise)
+  f["conv_shared"]         (converters of kind c01 / c11) group id: ONE attrs.Converter object per (group, kind) and build,
+                           shared by every field naming it whatever the field's NAME; it names the field it converts from the
+                           Attribute it is given; f["conv_prime"]: the name of the field of a throw-away class the object is
+                           used for FIRST
   call values              tokens of ODD_KINDS decode to objects with unusual __eq__/__ne__/__bool__/__hash__
 """
 from __future__ import annotations
@@ -208,6 +219,13 @@ def _canon(v):
     if SELF_CLASS[0] is not None and type(v) is SELF_CLASS[0]:
         return "self"
     if isinstance(v, attr.Attribute):
+        if CHECK_ATTR[0] and SELF[0] is not None:
+            try:
+                own = getattr(attr.fields(type(SELF[0])), v.name, None)
+            except Exception:  # noqa: BLE001
+                own = v
+            if own is not v:
+                return "foreign-attr." + v.name        # another class's field definition (a look-alike's, an ancestor's)
         return "attr." + v.name
     return "other:" + type(v).__name__
 
@@ -232,6 +250,7 @@ class TwinStr(str):
     __slots__ = ()
 
 
+_TWIN2 = [False]          # the look-alike twin of cb_twin mode is being built
 _EQ = [False]             # eq-twin mode: callbacks are EqCallback objects instead of closures
 
 
@@ -246,10 +265,40 @@ VETO = [None]             # optional rule (kind, field, idx, args, tag) -> bool:
                           # (callbacks whose verdict depends on their arguments / the instance's state; C12 only)
 
 
+class _StopSub(StopIteration):
+    pass
+
+
+class _BaseSub(BaseException):
+    pass
+
+
+class _AttrErrSub(AttributeError):
+    pass
+
+
+class _TypeErrSub(TypeError):
+    pass
+
+
+class _KeyErrSub(KeyError):
+    pass
+
+
+# what the faulty callback raises: the protocol is the same for every class ("propagates unchanged, no later step runs")
+FAULT_EXCS = {"user": common.UserError, "stop": StopIteration, "stopsub": _StopSub, "stopasync": StopAsyncIteration,
+              "generatorexit": GeneratorExit, "basesub": _BaseSub, "attributeerror": _AttrErrSub, "typeerror": _TypeErrSub,
+              "keyerror": _KeyErrSub}
+FAULT_EXC = ["user"]
+RAISED = [None]           # the exception object the faulty callback raised
+CHECK_ATTR = [False]      # during construction: an Attribute handed to a callback must be the instance's class's own
+
+
 def _event(kind, field, idx, args, tag=""):
     TRACE.append({"id": {"kind": tag + kind, "field": field, "idx": idx}, "args": [_canon(a) for a in args]})
     if FAULT[0] == (kind, field, idx):
-        raise common.UserError(f"{kind}.{field}.{idx}")
+        RAISED[0] = FAULT_EXCS.get(FAULT_EXC[0], common.UserError)(f"{kind}.{field}.{idx}")
+        raise RAISED[0]
     if VETO[0] is not None and VETO[0](kind, field, idx, args, tag):
         raise common.UserError(f"veto:{kind}.{field}.{idx}")
 
@@ -330,7 +379,11 @@ class EqHook(EqCallback):
         return f"{self.tag}hook.{name}({_canon(value)})" if idx == 0 else f"{self.tag}hook{idx}.{name}({_canon(value)})"
 
 
-def mk_factory(name, takes_self):
+def mk_factory(*a, **k):
+    return _ctx_live().memo(('mk_factory', a, tuple(sorted(k.items()))), lambda: _mk_factory(*a, **k))
+
+
+def _mk_factory(name, takes_self):
     tag = _TAG[0]
     if _EQ[0]:
         return (EqFactory1 if takes_self else EqFactory0)(("factory", name, 0, takes_self), tag)
@@ -345,7 +398,11 @@ def mk_factory(name, takes_self):
     return factory
 
 
-def mk_converter(name, kind, ann, idx=0, odd=None):
+def mk_converter(*a, **k):
+    return _ctx_live().memo(('mk_converter', a, tuple(sorted(k.items()))), lambda: _mk_converter(*a, **k))
+
+
+def _mk_converter(name, kind, ann, idx=0, odd=None):
     """kind: plain | c00 | c10 | c01 | c11 (Converter(takes_self, takes_field)); idx: position in a converter chain"""
     ts, tf = (False, False) if kind == "plain" else (kind[1] == "1", kind[2] == "1")
     tag = _TAG[0]
@@ -370,7 +427,11 @@ def mk_converter(name, kind, ann, idx=0, odd=None):
     return attr.Converter(fn, takes_self=ts, takes_field=tf)
 
 
-def mk_validator(name, idx):
+def mk_validator(*a, **k):
+    return _ctx_live().memo(('mk_validator', a, tuple(sorted(k.items()))), lambda: _mk_validator(*a, **k))
+
+
+def _mk_validator(name, idx):
     tag = _TAG[0]
     if _EQ[0]:
         return EqValidator(("validator", name, idx), tag)
@@ -395,6 +456,38 @@ class _Ctx:
         self.shared_v = {}
         self.decos = {}
         self.cas = {}          # field name -> the counting attribute a class of the real chain was last declared with
+        self.cb_twin = False   # look-alike twin mode: untagged callbacks are memoised per role (twin and real chain share them)
+        self.cb_cache = {}
+        self.shared_c = {}
+
+    def memo(self, key, make):
+        """in look-alike twin mode: ONE callback object per role for the twin and the real chain"""
+        if not (self.cb_twin and _TAG[0] == ""):
+            return make()
+        got = self.cb_cache.get(key)
+        if got is None:
+            got = self.cb_cache[key] = make()
+        return got
+
+    def shared_converter(self, group, kind, prime):
+        """one attrs.Converter object per (group, kind): it names the field it converts from the Attribute it is given.
+        It is FIRST used for a field called `prime` of a throw-away class (whatever a Converter object remembers
+        from the first field it served shows when it serves a field of another name)"""
+        got = self.shared_c.get((group, kind))
+        if got is None:
+            ts = kind[1] == "1"
+
+            def conv(value, *extra):
+                a = extra[-1]
+                _event("conv", a.name, 0, [value, *extra], "")
+                return _conv_result("", a.name, 0, value, extra)
+            got = self.shared_c[(group, kind)] = attr.Converter(conv, takes_self=ts, takes_field=True)
+            if prime:
+                try:
+                    attr.make_class("Prime", {prime: attr.ib(converter=got, default=None)})
+                except Exception:  # noqa: BLE001 -- only the history matters
+                    pass
+        return got
 
     def shared_validator(self, group, m):
         got = self.shared_v.get((group, m))
@@ -406,11 +499,27 @@ class _Ctx:
 _CTX = [None]
 
 
+_NO_CTX = None
+
+
+def _ctx_live():
+    global _NO_CTX
+    if _CTX[0] is not None:
+        return _CTX[0]
+    if _NO_CTX is None:
+        _NO_CTX = _Ctx()
+    return _NO_CTX
+
+
 def _ctx():
     return _CTX[0] if _CTX[0] is not None else _Ctx()     # outside `build`: nothing to share with
 
 
-def mk_hook(name, idx=0):
+def mk_hook(*a, **k):
+    return _ctx_live().memo(('mk_hook', a, tuple(sorted(k.items()))), lambda: _mk_hook(*a, **k))
+
+
+def _mk_hook(name, idx=0):
     tag = _TAG[0]
     if _EQ[0]:
         return EqHook(("hook", name, idx), tag)
@@ -496,6 +605,8 @@ def _dflt_value(name, kind="str"):
     string but canonicalises with the tag"""
     if _EQ[0] and _TAG[0] == "TWIN.":
         return TwinStr(f"dflt.{name}")
+    if _TWIN2[0]:
+        return f"TWIN.dflt.{name}"          # the look-alike twin differs in its plain defaults (and metadata)
     canon = f"{_TAG[0]}dflt.{name}"
     if kind == "strsub":
         v = DfltStr("D/" + name)
@@ -642,6 +753,10 @@ def _field_obj(f, next_gen):
         kw["eq"] = False
     if f.get("type") and not f.get("annotated"):
         kw["type"] = TYPES[f["type"]]
+    if _TWIN2[0]:
+        kw["metadata"] = {"look-alike": f["name"]}
+    if f.get("conv_shared") and f.get("converter") in ("c01", "c11") and not f.get("conv_type") and not _EQ[0]:
+        kw["converter"] = ctx.shared_converter(f["conv_shared"], f["converter"], f.get("conv_prime"))
     ca = (attrs.field if next_gen else attr.ib)(**kw)
     for i in range(m, nv):
         ca.validator(_odd_cb(f, "validator", mk_validator(f["name"], i)))          # `@x.validator`
@@ -841,6 +956,13 @@ def build(hspec):
         # returns: whatever attrs re-uses from an earlier class because "everything is equal" shows as "TWIN.".
         _EQ[0] = bool(hspec["classes"][0].get("eq_twin"))
         _TAG[0] = "TWIN." if _EQ[0] else "DECOY."
+        if hspec["classes"][0].get("cb_twin") and not _EQ[0]:
+            # look-alike twin: same module, qualnames, source and the VERY SAME callback objects; only what the Attribute
+            # objects carry (metadata, plain defaults) differs -- whatever is re-used from it shows as a foreign Attribute
+            # handed to a callback or as a "TWIN." default
+            _CTX[0].cb_twin = True
+            _TWIN2[0] = True
+            _TAG[0] = ""
         try:
             base = root
             for cs in hspec["classes"]:
@@ -849,6 +971,7 @@ def build(hspec):
             pass
         finally:
             _TAG[0] = ""
+            _TWIN2[0] = False
         base = root
         out = []
         for cs in hspec["classes"]:
@@ -870,6 +993,7 @@ def build(hspec):
         _CTX[0] = None
         _TAG[0] = ""
         _EQ[0] = False
+        _TWIN2[0] = False
     _CACHE[key] = out
     return out
 
@@ -1091,18 +1215,24 @@ def construct(hspec, call, fault=None, validators_enabled=True):
     names = [f["name"] for f in expected_fields(hspec)]
     del TRACE[:]
     FAULT[0] = tuple(fault) if fault else None
+    FAULT_EXC[0] = hspec.get("fault_exc") or "user"
+    RAISED[0] = None
     inst = C.__new__(C)
     SELF[0] = inst
     exc = None
     prev = attr.validators.get_disabled()
     attr.validators.set_disabled(not validators_enabled)
+    CHECK_ATTR[0] = True
     try:
         getattr(C, init_name)(inst, *[decode(v) for v in call["pos"]], **{k: decode(v) for k, v in call["kw"]})
     except BaseException as e:  # noqa: BLE001
-        exc = exc_enum(e)
+        # "propagates unchanged": the very object the faulty callback raised, whatever its class
+        exc = "user" if (RAISED[0] is not None and e is RAISED[0]) else exc_enum(e)
     finally:
+        CHECK_ATTR[0] = False
         attr.validators.set_disabled(prev)
         FAULT[0] = None
+        FAULT_EXC[0] = "user"
     trace = list(TRACE)
     del TRACE[:]
     exc_args = None
@@ -1182,6 +1312,10 @@ def gen_field(rng, name, frozen, rich=True, pipes=0.0, dflt_objs=False):
         f["dflt_kind"] = rng.choice(["str", "str", "strsub", "intsub", "bytessub"])
     if f["default"] == "factory":
         f["factory_style"] = rng.choice(["sugar", "sugar", "Factory"])
+    if f["converter"] in ("c01", "c11") and rng.random() < 0.5:
+        # one Converter OBJECT for every field of the build naming the group, first used for a field of another name
+        f["conv_shared"] = rng.choice(["g1", "g2"])
+        f["conv_prime"] = rng.choice([n for n in FIELD_NAMES if n != name])
     if rich and rng.random() < 0.15:
         # factory / converter / validator callables that are callable OBJECTS with unusual special methods
         f["cb_odd"] = rng.choice(sorted(CB_ODD))
@@ -1527,8 +1661,11 @@ def gen_hspec(rng, depth=None, frozen=None, allow_exc=True, allow_plain=True, hi
             if cs["kind"] == "attrs" and rng.random() < history / 2:
                 cs["side_base"] = {"pos": rng.choice(["before", "before", "after"]), "slots": rng.random() < 0.5}
         # the chain defined first is an equal-comparing twin instead of a decoy
-        if rng.random() < history * 0.7:
+        r_tw = rng.random()
+        if r_tw < history * 0.7:
             classes[0]["eq_twin"] = True
+        elif r_tw < history * 1.4:
+            classes[0]["cb_twin"] = True
     return h
 
 
